@@ -14,7 +14,7 @@ from common import enc_str, enc_table
 
 ALPHA = 'ab%_.*\\[(^$+?|'
 RULE = ('exhaustive (pattern, text) pairs up to length k over the 14-symbol alphabet {a b %% _ . * \\ [ ( ^ $ + ? |} and up to length 4 over '
-        '{a b %% _ . *}, seeded random longer Unicode pairs (BMP for JS); batched 500 pairs per query. non-trivial iff the pattern contains a '
+        '{a b %% _ . *}, seeded random longer Unicode pairs incl. characters outside the BMP (rbql-js is specified over UTF-16 code units); batched 500 pairs per query. non-trivial iff the pattern contains a '
         'wildcard or a regex metacharacter; distinct = distinct (pattern, text)')
 
 
@@ -32,7 +32,8 @@ def gen(tier, seed):
             pairs.append((t, p))
     exhaustive['pairs len<=%d over {a b %% _ . *}' % (3 if tier == 'quick' else 4)] = True
     rnd = random.Random(seed * 86028121 + 17)
-    pool = list('ab%_%_.*\\[]()^$+?|{}-') + ['é', '中', ' ', 'Z']
+    # characters outside the BMP are ONE code point for Python and TWO UTF-16 code units for JavaScript (see `units` below)
+    pool = list('ab%_%_.*\\[]()^$+?|{}-') + ['é', '中', ' ', 'Z', '😀', '𝒳', '😀']
     for _ in range(20000 if tier == 'quick' else 200000):
         p = ''.join(rnd.choice(pool) for _i in range(rnd.randint(0, 10)))
         # texts derived from the pattern so that matches are frequent
@@ -46,6 +47,20 @@ def gen(tier, seed):
                 t.append(c if rnd.random() < 0.93 else rnd.choice(pool))
         pairs.append((''.join(t), p))
     return pairs, exhaustive
+
+
+def units(s):
+    """the text as JavaScript sees it: one symbol per UTF-16 code unit; the two surrogates of an astral character are relabelled
+    into plane 15 (the model only distinguishes `%`, `_` and the line terminators, so any injective relabelling will do)"""
+    out = []
+    for ch in s:
+        n = ord(ch)
+        if n >= 0x10000:
+            out.append(chr(0xF0000 + 0xD800 + ((n - 0x10000) >> 10)))
+            out.append(chr(0xF0000 + 0xDC00 + ((n - 0x10000) & 0x3FF)))
+        else:
+            out.append(ch)
+    return ''.join(out)
 
 
 def run(res, tier, seed):
@@ -62,8 +77,9 @@ def run(res, tier, seed):
         res.sample({'text': pr[0], 'pattern': pr[1]})
     for js, impl in ((0, 'py'), (1, 'js')):
         lines = ['likebatch %d %s' % (js, enc_table([[t, p] for t, p in b])) for b in batches]
-        mout = common.run_model(lines)
-        sout = common.run_model(['likespec %s' % enc_table([[t, p] for t, p in b]) for b in batches])
+        conv = units if js else (lambda x: x)       # rbql-js matches UTF-16 code units: SQL LIKE over the unit sequence is its specification
+        mout = common.run_model(['likebatch %d %s' % (js, enc_table([[conv(t), conv(p)] for t, p in b])) for b in batches])
+        sout = common.run_model(['likespec %s' % enc_table([[conv(t), conv(p)] for t, p in b]) for b in batches])
         iout = common.run_impl_py(lines) if impl == 'py' else common.run_impl_js(lines)
         res.evaluations += len(pairs)
         nbad = 0
